@@ -68,7 +68,7 @@ def trans_worker(case):
     return {"case": case, "rows": rows, "functions": sorted(it.functions_entered)}
 
 
-def check(ctx, rep: Report):
+def _check_main(ctx, rep: Report):
     ci = ctx.p.find_class("_modules_copyable")
     mod = ci.module
     # ---- WHO
@@ -244,3 +244,10 @@ def check(ctx, rep: Report):
     if not ok:
         rep.violate(Violation("C20.PERS", "C20.PERS|creation-lock", "_modules_copyable.__new__ creates the shared instance with an unlocked check-then-set (two threads can create two instances with separate counters)",
                               f"{mod.relpath}:{new[0].node.lineno}" if new else "", "_modules_copyable.__new__"))
+
+
+def check(ctx, rep):
+    from . import metarules, shared
+    _check_main(ctx, rep)
+    metarules.deepcopy_callers(ctx, rep, "C20.DC")
+    metarules.publication_last(ctx, rep, "C20.PERS", "_modules_copyable.__new__", "cls.__instance__")
